@@ -37,13 +37,13 @@ inductive Token where
   | lparen | rparen | comma | colon | semicolon
 deriving DecidableEq, Repr, Inhabited
 
-def Literal.print : Literal → Str
+def Literal.text : Literal → Str
   | .single s | .double s | .integer s => s
   | .hex s => '&' :: 'H' :: s
   | .octal s => '&' :: s
   | .string s => '"' :: s ++ ['"']
 
-def Word.print : Word → Str
+def Word.text : Word → Str
   | .clear => "CLEAR".toList | .cls => "CLS".toList | .cont => "CONT".toList | .data => "DATA".toList
   | .def => "DEF".toList | .defdbl => "DEFDBL".toList | .defint => "DEFINT".toList
   | .defsng => "DEFSNG".toList | .defstr => "DEFSTR".toList | .delete => "DELETE".toList
@@ -57,7 +57,7 @@ def Word.print : Word → Str
   | .then => "THEN".toList | .to => "TO".toList | .troff => "TROFF".toList | .tron => "TRON".toList
   | .wend => "WEND".toList | .while => "WHILE".toList
 
-def Operator.print : Operator → Str
+def Operator.text : Operator → Str
   | .caret => "^".toList | .multiply => "*".toList | .divide => "/".toList | .divideInt => "\\".toList
   | .modulo => "MOD".toList | .plus => "+".toList | .minus => "-".toList | .equal => "=".toList
   | .notEqual => "<>".toList | .less => "<".toList | .lessEqual => "<=".toList | .greater => ">".toList
@@ -69,12 +69,12 @@ def Operator.isWord : Operator → Bool
   | _ => false
 
 /-- `impl Display for Token` -/
-def Token.print : Token → Str
+def Token.text : Token → Str
   | .unknown s => s
   | .whitespace n => List.replicate n ' '
-  | .literal l => l.print
-  | .word w => w.print
-  | .operator o => o.print
+  | .literal l => l.text
+  | .word w => w.text
+  | .operator o => o.text
   | .ident i => i.name
   | .lparen => ['('] | .rparen => [')'] | .comma => [','] | .colon => [':'] | .semicolon => [';']
 
@@ -83,7 +83,7 @@ def Token.isWord : Token → Bool
   | .operator o => o.isWord
   | _ => false
 
-def printTokens (ts : List Token) : Str := ts.flatMap Token.print
+def printTokens (ts : List Token) : Str := ts.flatMap Token.text
 
 /-- `impl Display for Line` -/
 def printLine (number : Option Nat) (ts : List Token) : Str :=
